@@ -118,7 +118,9 @@ impl<NumericTypes: EvalexprNumericTypes<Int = Self>> EvalexprInt<NumericTypes> f
     }
 
     fn abs(&self) -> EvalexprResult<Self, NumericTypes> {
-        Ok((*self).abs())
+        (*self)
+            .checked_abs()
+            .ok_or_else(|| EvalexprError::negation_error(Value::<NumericTypes>::from_int(*self)))
     }
 
     fn bitand(&self, rhs: &Self) -> Self {
